@@ -149,6 +149,15 @@ def real_derivs(case):
     named = root.get_value_and_derivatives(betas=d, database=db, gradient=True, hessian=True, bhhh=True, aggregation=True, prepare_ids=True, named_results=True)
     o['named_G'] = {k: float(v) for k, v in named.gradient.items()}
     o['named_H'] = {a: {b: float(v) for b, v in r.items()} for a, r in named.hessian.items()}
+    # per-observation named results
+    nd = root.get_value_and_derivatives(betas=d, database=db, gradient=True, hessian=True, bhhh=True, aggregation=False, prepare_ids=True, named_results=True)
+    o['named_rows'] = {
+        'g': [{k: float(v) for k, v in g.items()} for g in nd.gradients],
+        'h': [{a: {b: float(v) for b, v in r.items()} for a, r in h.items()} for h in nd.hessians],
+        'b': [{a: {b: float(v) for b, v in r.items()} for a, r in h.items()} for h in nd.bhhhs],
+    }
+    nb = root.get_value_and_derivatives(betas=d, database=db, gradient=True, hessian=False, bhhh=True, aggregation=False, prepare_ids=True, named_results=True)
+    o['named_rows_bhhh_only'] = None if nb.bhhhs is None else [{a: {b: float(v) for b, v in r.items()} for a, r in h.items()} for h in nb.bhhhs]
     root.prepare(db, 0)
     o['names'] = list(root.id_manager.free_betas.names)
     root.set_id_manager(None)
@@ -254,6 +263,17 @@ def check_case(ctx, res, case, fd=True):
         res.violate('named gradient does not pair entry k with the k-th reported name', small, o['named_G'], dict(zip(names, o['G'])), where='function_output.NamedFunctionOutput')
     if any(not core.close(o['named_H'][a][b], o['H'][i][j], rel=1e-12) for i, a in enumerate(names) for j, b in enumerate(names)):
         res.violate('named Hessian does not pair entries with names', small, o['named_H'], o['H'], where='function_output.NamedFunctionOutput')
+    nr = o['named_rows']
+    for r in range(len(o['g'])):
+        okg = all(core.close(nr['g'][r][nm], o['g'][r][k], rel=1e-12) for k, nm in enumerate(names))
+        okh = all(core.close(nr['h'][r][a][b], o['h'][r][i][j], rel=1e-12) for i, a in enumerate(names) for j, b in enumerate(names))
+        okb = all(core.close(nr['b'][r][a][b], o['b'][r][i][j], rel=1e-12) for i, a in enumerate(names) for j, b in enumerate(names))
+        okb2 = o['named_rows_bhhh_only'] is not None and all(
+            core.close(o['named_rows_bhhh_only'][r][a][b], o['b'][r][i][j], rel=1e-12) for i, a in enumerate(names) for j, b in enumerate(names))
+        if not (okg and okh and okb and okb2):
+            res.violate('per-observation named gradient / Hessian / BHHH do not pair the positional entries with the names', {**small, 'row': r},
+                        {'g': nr['g'][r], 'b': nr['b'][r]}, {'g': o['g'][r], 'b': o['b'][r]}, where='function_output.NamedBiogemeDisaggregateFunctionOutput')
+            break
     if not vec_close(o['g_only'], o['G'], 1e-12) or not o['g_only_h']:
         res.violate('requesting the gradient only returns something else', small, [o['g_only'], o['g_only_h']], o['G'], where='calculator packaging')
     bio = o['bio']
